@@ -91,12 +91,18 @@ bool lzma2_dict_from_prop(uint8_t b, uint64_t &size);
 // ------------------------------------------------------ generative encoder
 struct SynthRng {
 	uint64_t s;
-	// deliberately invalid streams: with this probability (per emit() call) one
-	// symbol refers to a byte just outside the dictionary (a match or rep whose
-	// distance equals the number of bytes available, now and then a little
-	// more). The plaintext gets what a decoder that forgot the check would
-	// most plausibly produce (0 for a byte before the start of the dictionary).
-	unsigned illegal_permille = 0, illegal_emitted = 0;
+	// Deliberately invalid streams: exactly one "site" of the artefact is made
+	// illegal. Sites are counted as they are visited (every emit() call can
+	// hold a symbol that refers to a byte just outside the dictionary - a match
+	// or rep whose distance equals the number of bytes available, now and then a
+	// little more; every LZMA2 stream can hold a chunk sequence the grammar
+	// forbids). A first, fault-free pass counts the sites; the second pass sets
+	// illegal_site_target. The plaintext gets what a decoder that forgot the
+	// check would most plausibly produce (0 for a byte before the dictionary).
+	long illegal_site_target = -1, site_counter[2] = { 0, 0 };
+	int illegal_kind = 0;      // 0: distance sites (emit calls), 1: grammar sites (LZMA2 streams)
+	unsigned illegal_emitted = 0;
+	bool site(int kind) { long n = site_counter[kind]++; return kind == illegal_kind && n == illegal_site_target; }
 	explicit SynthRng(uint64_t seed) : s(seed * 0x9E3779B97F4A7C15ull + 0x1234567) {}
 	uint64_t next() { s ^= s << 13; s ^= s >> 7; s ^= s << 17; return s * 0x2545F4914F6CDD1Dull; }
 	uint64_t below(uint64_t n) { return n ? next() % n : 0; }
